@@ -42,7 +42,21 @@ def gen(seed, tier="quick"):
     scn = G.gen_retry(seed, KNOBS)
     r = random.Random(seed ^ 0xC09)
     scn["cfg"]["breaker"] = {"kind": "spy"}
-    for c in scn["calls"]:
+    twist = r.random()
+    if twist < 0.12:
+        scn["cfg"]["breaker"]["falsy"] = True      # a breaker object whose truth value is False
+    alias = 0.12 <= twist < 0.3 and len(scn["calls"]) > 1
+    for ci, c in enumerate(scn["calls"]):
+        for st in c["attempts"]:
+            if st["kind"] != "exc":
+                continue
+            if alias:
+                # one exception object travelling through several calls / policies whose classifiers disagree about it
+                st["status_cls"] = r.choice(G.CLASSES)
+                if ci and r.random() < 0.6:
+                    st["reuse_any"] = True
+            elif 0.3 <= twist < 0.42 and r.random() < 0.5:
+                st["ctx_coe"] = True                  # raised while handling a nested breaker's rejection
         x = r.random()
         if x < 0.25:
             c["entry"] = "Policy.noretry"
@@ -102,7 +116,7 @@ def oracle(scn, trace):
         else:
             rec = [i for i in infos if i.recorded] if cf.begin["entry"] != "Policy.noretry" else []
             if cf.begin["entry"] == "Policy.noretry":
-                K = last.a.cls if last is not None else None
+                K = (last.a.end.get("dcls") or last.a.cls) if last is not None and last.a.end is not None else None
                 if K == "UNKNOWN" or K is None:
                     K = "UNKNOWN"
                 if last is not None and last.a.end is not None and last.a.end.get("etype") == "SimTimeoutError":
